@@ -63,7 +63,7 @@ func c07(c *eng.Ctx) {
 			} else {
 				b := eng.NewBounder()
 				f := b.Facts(next)
-				tTotal, tCur, tAlloc := eng.Val(total), eng.Val(current), eng.Val(allocated)
+				tTotal, tCur, tAlloc := b.TermOf(total), b.TermOf(current), b.TermOf(allocated)
 				one := eng.Num(1)
 				c.Check("R1", fn, "next ≥ 1", sink.Pos(), f.HasL(func(t *eng.Term) bool { return t.K == eng.TConst && t.C >= 1 }),
 					"every quota answered is at least 1 — the floor must be the last adjustment (e.g. total=100, allocated=800, current=400 gives −300 otherwise); derived: "+f.String())
@@ -319,7 +319,7 @@ func c07Fixtures(c *eng.Ctx) {
 		b := eng.NewBounder()
 		f := b.Facts(eng.Args(call)[0])
 		ge1 := f.HasL(func(t *eng.Term) bool { return t.K == eng.TConst && t.C >= 1 })
-		capKey := eng.Bin(eng.TMax, eng.Val(fn.Params[0]), eng.Num(1)).Key()
+		capKey := eng.Bin(eng.TMax, b.TermOf(fn.Params[0]), eng.Num(1)).Key()
 		cp := f.HasU(func(t *eng.Term) bool { return t.Key() == capKey })
 		c.Fixture("C07.bounds/"+name, want, fmt.Sprintf("ge1=%v cap=%v", ge1, cp))
 	}
